@@ -128,6 +128,11 @@ CURATED = [
     ("align-mix", [["a", U8, None], ["b", U32, None], ["c", I24, None], ["d", arr(CHAR, 3), None], ["e", INNER, None], ["f", arr(U16, 2), None], ["g", U64, None]]),
     ("align-nested-arr", [["a", U8, None], ["s", arr(INNER2, 2), None], ["b", U8, None]]),
     ("dyn-then-aligned", [["n", U8, None], ["d", arr(CHAR, ["expr", ["bin", "&", ["id", "n"], ["num", 3]]]), None], ["x", U32, None], ["y", U16, None]]),
+    ("dyn-then-block", [["n", U8, None], ["d", arr(CHAR, ["expr", ["bin", "&", ["id", "n"], ["num", 3]]]), None], ["a", U8, None], ["b", U32, None],
+                        ["c", U8, None], ["e", U64, None]]),
+    ("dyn-then-block-bits", [["n", U8, None], ["d", arr(U8, ["expr", ["bin", "&", ["id", "n"], ["num", 3]]]), None], ["x", U16, 4], ["y", U16, 12],
+                             ["a", U8, None], ["b", U32, None]]),
+    ("str-then-block", [["s", arr(CHAR, None), None], ["a", U8, None], ["b", I24, None], ["c", U16, None]]),
     ("nullterm-mid", [["s", arr(CHAR, None), None], ["w", arr(U16, None), None], ["t", U8, None]]),
     ("expr-arith", [["n", U8, None], ["m", U8, None], ["d", arr(U16, ["expr", ["bin", "+", ["bin", "&", ["id", "n"], ["num", 1]], ["bin", "&", ["id", "m"], ["num", 1]]]]), None], ["t", U8, None]]),
     ("expr-neg", [["n", I8, None], ["d", arr(U8, ["expr", ["bin", "-", ["bin", ">>", ["id", "n"], ["num", 6]], ["num", 0]]]), None], ["t", U8, None]]),
